@@ -481,7 +481,7 @@ func (u *clientUpdater) updateService(ctx context.Context, service ServiceDefini
 		presentation := curr.presentation
 		// A Discovery Service only accepts JWT presentations that have an ID. Ignore anything else the server returns,
 		// since the ID and JWT are dereferenced below (and the entry could never be valid).
-		if presentation.Format() != vc.JWTPresentationProofFormat || presentation.ID == nil || presentation.JWT() == nil {
+		if presentation.Format() != vc.JWTPresentationProofFormat || presentation.ID == nil || presentation.ID.String() == "" || presentation.JWT() == nil {
 			log.Logger().
 				WithField("discoveryService", service.ID).
 				Warn("Ignoring presentation from Discovery Service: not a JWT presentation or missing ID")
